@@ -269,6 +269,60 @@ def explicitPart (m : Mode) (body : Bytes) : Bytes :=
   | .cbc => body.take blockLen
   | .gcm => body.take explicitNonceLen
 
+/-! ### the receiving side of a protected connection
+
+6.3.3: "once the handshake is complete, the two parties have shared secrets that are used to
+encrypt records and compute MACs on them"; 6.4.5.9 (ChangeCipherSpec): the receiver "instructs the
+record layer to immediately copy the read pending state into the read current state" — from then on
+EVERY record of that direction is processed under the read state installed then: it is opened with
+the peer's write keys and its seq_num + type + version + length + content must authenticate.  There
+is no record type, no epoch and no moment after that point at which a body is taken as it stands.
+DTLCP (RFC 6347 4.1): the epoch in the header names the cipher state the record was sealed under; a
+receiver whose read state is that of epoch e has no other state to process a record with. -/
+
+/-- read state of one direction after the peer's ChangeCipherSpec -/
+structure ReadState where
+  mode : Mode
+  /-- the PEER's write keys -/
+  keys : DirKeys
+  /-- DTLCP: the epoch these keys belong to (1 after the first handshake) -/
+  epoch : Nat
+  /-- TLCP: the implicit sequence number of the next record of this direction -/
+  seq : Nat
+
+/-- The standard's receiver on one record put in front of it: `some (type, content)` when it opens
+under the read state — the header's version is the negotiated one, (DTLCP) its epoch is the read
+state's, and the body opens under the peer's write keys with seq_num (TLCP: the implicit counter;
+DTLCP: epoch ‖ sequence_number of the header), type, version and length authenticated — `none`
+otherwise: the record yields nothing (DTLCP: it is discarded; TLCP: the connection fails). -/
+def receive (P : Prims) (st : Stack) (rs : ReadState) (ver : Nat) (rec : Bytes) : Option (Nat × Bytes) :=
+  match parse st rec with
+  | some (p, []) =>
+    if p.ver != ver then none else
+    if st == .dtlcp && p.epoch != rs.epoch then none else
+    let seq := match st with | .tlcp => rs.seq | .dtlcp => p.seq
+    match openBody P rs.mode rs.keys st p.typ p.ver p.epoch seq p.body with
+    | .ok x => some (p.typ, x)
+    | .error _ => none
+  | _ => none
+
+/-- What "opens under the direction's own key with the sequence number (and for DTLCP epoch), type,
+version and length authenticated" says about a content handed on from a record body:
+GCM — the AEAD opens the ciphertext to it under write key, write IV ‖ explicit nonce and the
+additional data seq_num + type + version + length; CBC — it is the front of the decryption under
+the write key and the bytes that follow it are HMAC(MAC key, seq_num + type + version + length +
+content). -/
+def Authentic (P : Prims) (m : Mode) (k : DirKeys) (st : Stack) (typ ver epoch seq : Nat) (body content : Bytes) : Prop :=
+  match m with
+  | .gcm =>
+    let ct := body.drop explicitNonceLen
+    P.aeadOpen k.key (gcmNonce k.iv (body.take explicitNonceLen))
+      (additionalData st typ ver epoch seq (ct.length - P.tagLen)) ct = some content
+  | .cbc =>
+    let pt := CBC.decrypt (P.dec k.key) (body.take blockLen) (body.drop blockLen)
+    pt.take content.length = content ∧
+      (pt.drop content.length).take P.hLen = P.hmac k.mac (macInput st typ ver epoch seq content)
+
 /-! ### build-time checks -/
 
 #guard preMasterWellFormed 0xe053 (be 2 0x0101 ++ List.replicate 46 7)
